@@ -10,10 +10,21 @@ PROPS = ["C06", "C16"]
 TRUSTED = ["verus 0.2026.09.13 + z3", "A-vstd (str::chars for-loop specification)"]
 
 SPECS = """
-// number of newline characters among the first n characters: the 0-based index of the line that contains offset n
+// number of newline characters among the first n characters: the 0-based index of the line that contains character n
 pub open spec fn count_nl(s: Seq<char>, n: int) -> nat decreases n {
     if n <= 0 { 0 } else { count_nl(s, n - 1) + if s[n - 1] == '\\n' { 1nat } else { 0nat } }
 }
+// pest locations are BYTE offsets into the UTF-8 text: blen(c) is the encoded length of a character (A-spec of char::len_utf8: 1..4 bytes)
+pub open spec fn blen(c: char) -> nat { c.len_utf8() as nat }      // vstd's own specification of char::len_utf8 (1..4 bytes)
+// byte offset at which character n starts
+pub open spec fn boff(s: Seq<char>, n: int) -> nat decreases n { if n <= 0 { 0 } else { boff(s, n - 1) + blen(s[n - 1]) } }
+// the character that starts at byte offset loc, searched from character k on; the text length when no character starts there
+pub open spec fn char_at(s: Seq<char>, loc: int, k: int) -> int decreases s.len() - k {
+    if k >= s.len() || k < 0 { s.len() as int } else if boff(s, k) == loc { k } else { char_at(s, loc, k + 1) }
+}
+pub proof fn lemma_count_le(s: Seq<char>, n: int) requires 0 <= n ensures count_nl(s, n) <= n decreases n { if n > 0 { lemma_count_le(s, n - 1); } }
+pub proof fn lemma_boff_ge(s: Seq<char>, n: int) requires 0 <= n ensures boff(s, n) >= n decreases n { if n > 0 { lemma_boff_ge(s, n - 1); } }
+pub proof fn lemma_boff_mono(s: Seq<char>, i: int, j: int) requires 0 <= i <= j ensures boff(s, i) <= boff(s, j) decreases j - i { if i < j { lemma_boff_mono(s, i, j - 1); } }
 pub struct CompilerState<'a> { pub preprocessed_utf8: &'a str }     // R6 shim: the only field the loop reads
 """
 
@@ -21,7 +32,7 @@ pub struct CompilerState<'a> { pub preprocessed_utf8: &'a str }     // R6 shim: 
 def build(repo):
     u = Unit(NAME, TOOL, PROPS,
              ["src/compile.rs: compile() (parse-error arm)", "src/compile.rs: CompilerState::syntax_error (offset->line loop)", "src/compile.rs: CompilerState::compiler_error (offset->line loop)", "src/compile.rs: CompilerState::warning (offset->line loop)"],
-             assumptions=["A-ascii: pest offsets are byte offsets, the loop counts characters; equal only for ASCII preprocessed text",
+             assumptions=["the byte length of a str fits usize (precondition boff(text, len) <= usize::MAX); char::len_utf8 has vstd's specification",
                           "A-mapping: cpp::process pushes exactly one mapping entry per output line with the right physical line (process() is not under contract: str::split*/byte slicing without vstd specifications)",
                           "the tail of each function (building the Error from mapped_lines[...]): only its index expressions are extracted and proved equal to the loop's line_number; that the fields .0/.1/.2 are copied to filename/line/included_in is not under contract",
                           "the caller passes loc <= text length and the line table has an entry for that line (else the index panics): stated, not proved"])
@@ -58,16 +69,20 @@ def build(repo):
         c = Cut(loop_text, f.rel, f.line0, "%s: offset->line loop (R8)" % fname)
         c.sub(r"let mut char_number = 0;", "let mut char_number: usize = 0;", "R3-type", expect=(0, 1))
         c.loop_spec(1, r"^for c in self\.preprocessed_utf8\.chars\(\)$", """
-            invariant_except_break char_number == it.index@,
-            invariant line_number == count_nl(self.preprocessed_utf8@, char_number as int), //@ C06:%(f)s-line-inv
-                char_number <= loc, line_number <= char_number, char_number <= self.preprocessed_utf8@.len(),
-            ensures char_number == loc || char_number == self.preprocessed_utf8@.len(), //@ C06:%(f)s-stops-at-offset
+            invariant_except_break char_number == boff(self.preprocessed_utf8@, it.index@ as int),
+                line_number == count_nl(self.preprocessed_utf8@, it.index@ as int), //@ C06:%(f)s-line-inv
+                char_at(self.preprocessed_utf8@, loc as int, 0) == char_at(self.preprocessed_utf8@, loc as int, it.index@ as int),
+            invariant line_number <= self.preprocessed_utf8@.len(), boff(self.preprocessed_utf8@, self.preprocessed_utf8@.len() as int) <= usize::MAX,
+            ensures line_number == count_nl(self.preprocessed_utf8@, char_at(self.preprocessed_utf8@, loc as int, 0)), //@ C06:%(f)s-stops-at-offset
 """ % {"f": fname}, new_header="for c in it: self.preprocessed_utf8.chars()")
+        c.at_block_start(r"for c in it: self\.preprocessed_utf8\.chars\(\)", "            proof { lemma_count_le(self.preprocessed_utf8@, it.index@ as int); lemma_boff_mono(self.preprocessed_utf8@, it.index@ as int + 1, self.preprocessed_utf8@.len() as int); lemma_boff_ge(self.preprocessed_utf8@, self.preprocessed_utf8@.len() as int); }")
         cuts.append(c)
         parts.append("""
     // R8: the offset->line loop of %(f)s, verbatim; the result is the index used for self.mapped_lines[...]
     fn line_of_%(f)s(&self, loc: usize) -> (line_number: usize)
-        ensures line_number == count_nl(self.preprocessed_utf8@, if loc <= self.preprocessed_utf8@.len() { loc as int } else { self.preprocessed_utf8@.len() as int }), //@ C06:%(f)s-offset-to-line
+        requires boff(self.preprocessed_utf8@, self.preprocessed_utf8@.len() as int) <= usize::MAX,      // the byte length of a str fits usize
+        // the line index is the number of newlines before the character that starts at byte offset loc (all of them when no character starts there)
+        ensures line_number == count_nl(self.preprocessed_utf8@, char_at(self.preprocessed_utf8@, loc as int, 0)), //@ C06:%(f)s-offset-to-line
     {
 %(loop)s
         line_number
